@@ -85,7 +85,7 @@ def run(ctx, chk):
                 src = None
                 if okel:
                     t = el[1][0]
-                    if an.is_call(t, re.compile(r"^<&seq::slice::SeqSlice<codec::iupac::Iupac> as std::convert::Into<seq::Seq<codec::iupac::Iupac>>>::into$")):
+                    if an.is_call(t, re.compile(r"^CONV<&seq::slice::SeqSlice<(codec::iupac::Iupac|A)> -> seq::Seq<(codec::iupac::Iupac|B)>>$")):
                         a = t[2][0]
                         if a[0] == "seqview" and a[1][0] == "static":
                             src = a[1][1]
@@ -182,7 +182,7 @@ def run(ctx, chk):
 def check_search(chk, cfg, b, paths, table_term):
     what = "Standard::try_to_amino"
     L3 = cmp(L(P(2)), "Eq", c(3))
-    into_seq = re.compile(r"^<&seq::slice::SeqSlice<codec::iupac::Iupac> as std::convert::Into<seq::Seq<codec::iupac::Iupac>>>::into$")
+    into_seq = re.compile(r"^CONV<&seq::slice::SeqSlice<(codec::iupac::Iupac|A)> -> seq::Seq<(codec::iupac::Iupac|B)>>$")
     inval = [p for p in paths if p.end == "return" and opt_kind(p.ret)[0] == "Err" and opt_kind(p.ret)[1][3] == "InvalidCodon"]
     ok1 = len(inval) == 1 and gset(inval[0].guards) == {(L3[0], nf.NEG[L3[1]])} and not inval[0].others() and \
         an.is_call(opt_kind(inval[0].ret)[1][4][0], into_seq, (P(2),))
